@@ -47,6 +47,9 @@ def analyse_writers(ctx, f, roles):
             continue
         paths = sym.SymExec(f, body).run()
         ctx.saw("%s: %d paths" % (w, len(paths)))
+        if any(p.pre_loop for p in paths) and set_toggle_writer(ctx, f, w, body, paths, root, hf, features):
+            n_paths += len(paths)
+            continue
         for p in paths:
             if p.end not in ("return", "loopback"):
                 ctx.fail("%s:path-end" % short(w), "writer %s has a path ending in %s" % (w, p.end), loc(body))
@@ -94,6 +97,72 @@ def analyse_writers(ctx, f, roles):
                       % (w, sorted(state), [show_key(k) for k in got], [show_key(k) for k in want]), loc(body), sample=sample)
     ctx.floor("writer paths", n_paths, 14)
     return features
+
+
+def set_toggle_writer(ctx, f, w, body, paths, root, hf, features):
+    """A placement writer for a whole set of squares: it toggles S in one colour board and one piece board and XORs,
+    in a loop over exactly S whose body does nothing else, the key indexed by (that colour, that piece, the square at
+    hand).  Iteration visits each member of S once (C18), so state and hash end in step.  -> True when the writer has
+    this shape and was accounted for (its obligations recorded); False to let the general rule speak."""
+    rets = [p for p in paths if p.end == "return"]
+    backs = [p for p in paths if p.end == "loopback"]
+    if len(rets) != 1 or len(backs) != 1 or len(paths) != 2:
+        return False
+    pr, pb = rets[0], backs[0]
+    heads = [k for k in pr.pre_loop if k[0] == 0]
+    if len(heads) != 1 or list(pr.pre_loop) != heads or list(pb.pre_loop) != heads:
+        return False
+    snap = pr.pre_loop[heads[0]]
+    tag = body.key.rsplit("::", 1)[-1]
+    Hh = ("hv", tag, "*self." + hf, heads[0][1])
+    # before the loop: the hash untouched, two cells toggled by one set
+    if snap.get(("*self", (("f", hf),))) != ("field", root, hf):
+        return False
+    written_in_loop = {path for (ln, path), v in snap.items() if ln == "*self"}
+    if written_in_loop != {(("f", hf),)}:
+        return False
+    ch = changed_fields(pr.store[("P", "self")], root)
+    if ch is None or ch.get(hf) != Hh:
+        return False
+    ch.pop(hf)
+    if len(ch) != 2:
+        return False
+    cells = {x: is_cell_toggle(ch[x], ("field", root, x)) for x in ch}
+    if not all(cells.values()):
+        return False
+    (fa, (ia, sa)), (fb, (ib, sb)) = sorted(cells.items())
+    if sa != sb:
+        return False
+    S = sa
+    # the loop runs over S
+    its = [v for (ln, path), v in snap.items() if v is not None and v[0] in ("iter", "iter*", "iterk")]
+    if len(its) != 1 or its[0][1] != S:
+        return False
+    # one iteration: hash ^= key[..][elem(S)], nothing else
+    chb = changed_fields(pb.store[("P", "self")], root)
+    if chb is None or set(chb) != set(ch) | {hf} or any(chb[x] != ch[x] for x in ch):
+        return False
+    leaves = cancel(xor_leaves(chb[hf]))
+    if Hh not in leaves:
+        return False
+    leaves.remove(Hh)
+    keys = [key_path(l) for l in leaves]
+    if len(keys) != 1 or keys[0] is None:
+        return False
+    tab = keys[0]
+    elem = ("elem", S)
+    idxs = sorted([x[1] for x in tab[1] if isinstance(x, tuple)], key=repr)
+    ok = idxs == sorted([ia, ib, enum_idx(elem)], key=repr)
+    ctx.check(ok, "%s:set-toggle:lock-step" % short(w),
+              "%s toggles a set of squares in %s[%s] and %s[%s] but the key XORed per square is not indexed by exactly those two values and the square"
+              % (w, fa, sym.show(ia), fb, sym.show(ib)), loc(body),
+              sample={"writer": short(w), "state_changed": [fa, fb], "per square of the set": show_key(tab)})
+    if ok:
+        feat = features.setdefault("piece", {})
+        feat["table"] = table_shape(tab)
+        feat["dims"] = [x[1] for x in tab[1] if isinstance(x, tuple)]
+        feat["body"] = body
+    return True
 
 
 def loop_segment(ctx, w, body, p, final, root):
